@@ -218,7 +218,32 @@ CLAIMED["C02"] = dict(
        "checked by TLC), VolumeModel formula checked in floating point.",
   ref="DESIGN.md section 5 (C02)", engine="tlc-operator")
 
+CLAIMED["C17"] = dict(
+  technique="TLA+ model of the save/load/convert pipeline on typed value "
+            "trees (IOFormats.tla) checked by TLC + TLC trace validation of "
+            "real save/convert/load chains on randomly composed objects of "
+            "every registered class",
+  text="TLC checks RoundTrip and ContentPreserved for every tree of depth "
+       "<= 2 over the leaf kinds and every chain of up to three "
+       "save/convert steps through HDF5, npz and JSON (1.9 M states).  600 "
+       "(thorough 12000) random trees of depth <= 4 whose leaves are scalars, "
+       "strings, None, real/complex/integer arrays (incl. NaN/inf/empty) and "
+       "instances of all twelve registered classes in 26 variants (mappings, "
+       "anisotropy, coordinate formats, complex strengths, NaN data, array "
+       "noise, explicit std, Laplace/frequency/frequency-free fields, "
+       "simulations with fields/misfit/gradient) are saved, converted "
+       "through up to three formats and loaded with the real code; TLC "
+       "validates the observed type tree of every load against the model and "
+       "requires value equality (exact arrays, key order inside objects).",
+  note="Trusted: TLC; harness equality (to_dict-based, exact).  Outside the "
+       "property's alphabet and not generated: boolean arrays, lists/tuples, "
+       "empty dictionaries in npz, reserved markers.",
+  ref="DESIGN.md section 5 (C17)", engine="tlc-ioformats")
+
 ENGINES = [
+ dict(name="tlc-ioformats", path="spec/IOFormats.tla",
+      serves_properties=["C17"],
+      kind_free_text="TLA+ spec + TLC exhaustive + TLC trace validation"),
  dict(name="tlc-operator", path="spec/Operator.tla", serves_properties=["C02"],
       kind_free_text="TLA+ exact-arithmetic reference + TLC validation of "
                      "extracted code matrices"),
